@@ -9,7 +9,8 @@ ID = 'C05'
 NAMESPACE = 'VL.C05'
 LEAN_MODULES = ['VotelibProofs.Props.C05']
 GEN_MODULES = []
-REQUIRED = []
+REQUIRED = ['cw_copeland', 'cw_minimax_wv', 'cw_minimax_margins', 'no_candidate_dropped_copeland',
+            'no_candidate_dropped_minimax', 'no_candidate_dropped_schulze']
 UNPROVED = []
 REQUIRED_COUNTERS = ['has_cw', 'sparse_never_loser', 'all_tied', 'cycle', 'from_ranked', 'uab_true', 'uab_false',
                      'n_all', 'n_one', 'hybrid', 'second_order_used', 'fraction', 'missing_pair']
